@@ -187,8 +187,16 @@ class Executor(object):
         m = getattr(self, "st_" + type(s).__name__, None)
         if m is None:
             raise Outside("statement %s" % type(s).__name__)
+        lcx = {}
+        if isinstance(s, (ast.For, ast.While)):
+            # ghost code attached to the loop by ordinal (robust against edits of the header text)
+            lcx = self.fx.contract.get("loops", {}).get(self.loop_ord + 1) or {}
+            if lcx.get("before"):
+                st = self.ghost(lcx["before"], st)
         self.ev.exc_out = []
         res = m(s, st)
+        if lcx.get("after"):
+            res = [Outcome("normal", self.ghost(lcx["after"], o.st)) if o.kind == "normal" else o for o in res]
         res = list(self.ev.exc_out) + list(res)
         self.ev.exc_out = []
         for k in keys(self.pat_ghost_after):
@@ -515,21 +523,40 @@ class Executor(object):
         return self.loop_ord, (lc or {})
 
     def ghost_writes(self, stmts):
-        """ghost fields / locals written by ghost hooks attached to statements inside stmts"""
+        """ghost fields / locals written by ghost hooks attached to statements inside stmts (same matching as stmt(): full text, header of a
+        compound statement, prefix patterns) and by the before / after hooks of the loops nested in stmts"""
         out_f, out_n = set(), set()
+
+        def targets(ghost_stmts):
+            for g in ghost_stmts:
+                node = ast.parse(g.strip()).body[0]
+                if isinstance(node, ast.Assign):
+                    t = node.targets[0]
+                    if isinstance(t, ast.Attribute):
+                        out_f.add(t.attr)
+                    elif isinstance(t, ast.Name):
+                        out_n.add(t.id)
+
+        nloop = [self.loop_ord]
+
+        def visit(n):
+            if isinstance(n, ast.stmt):
+                src = ast.unparse(n)
+                if isinstance(n, (ast.If, ast.For, ast.While, ast.Try, ast.With)):
+                    src = src.split("\n")[0]
+                for tbl in (self.pat_ghost_after, self.pat_ghost_before):
+                    for k in tbl:
+                        if k == src or (k.endswith("...") and src.startswith(k[:-3])):
+                            targets(tbl[k])
+                if isinstance(n, (ast.For, ast.While)):
+                    nloop[0] += 1
+                    lc = self.fx.contract.get("loops", {}).get(nloop[0]) or {}
+                    targets(lc.get("before", []))
+                    targets(lc.get("after", []))
+            for ch in ast.iter_child_nodes(n):
+                visit(ch)
         for s in stmts:
-            for n in ast.walk(s):
-                if isinstance(n, ast.stmt):
-                    src = ast.unparse(n)
-                    for tbl in (self.pat_ghost_after, self.pat_ghost_before):
-                        for g in tbl.get(src, []):
-                            node = ast.parse(g.strip()).body[0]
-                            if isinstance(node, ast.Assign):
-                                t = node.targets[0]
-                                if isinstance(t, ast.Attribute):
-                                    out_f.add(t.attr)
-                                elif isinstance(t, ast.Name):
-                                    out_n.add(t.id)
+            visit(s)
         return out_f, out_n
 
     def st_For(self, s, st):
